@@ -1,5 +1,6 @@
 import VibeProof.Generated.Consts
 import VibeProof.Model.BinTypes
+import VibeProof.Model.Temporal
 /-
 Model of vibesql's native binary persistence format
 (crates/vibesql-storage/src/persistence/binary/{io,format,value,data,catalog}.rs), as coded
@@ -34,6 +35,9 @@ inductive Err where
   | notImplemented
   | depthExceeded
   | zeroColumnRows
+  | badTemporal
+  /-- a value parser panicked (`Fail.panic` of Model/Temporal.lean) — C20 proves this outcome away -/
+  | panic
   deriving DecidableEq, Repr
 
 /-- ledger of file-driven allocation requests (bytes), and the outcome -/
@@ -198,6 +202,14 @@ inductive TKind where
 def TKind.tag : TKind → Tag
   | .date => .date | .time => .time | .timestamp => .timestamp | .interval => .interval
 
+/-- `s.parse::<Date|Time|Timestamp|Interval>()` of value.rs, by the parsers of Model/Temporal.lean
+    (C22's model; its outcomes are ok / err / panic) -/
+def temporalCheck : TKind → Bytes → Except Temporal.Fail Unit
+  | .date, s => (Temporal.Date.fromStr s).map (fun _ => ())
+  | .time, s => (Temporal.Time.fromStr s).map (fun _ => ())
+  | .timestamp, s => (Temporal.Timestamp.fromStr s).map (fun _ => ())
+  | .interval, s => (Temporal.Interval.new s).map (fun _ => ())
+
 inductive BVal where
   | null
   | smallint (n : Int)
@@ -229,7 +241,7 @@ def BVal.WF : BVal → Prop
   | .character s => validUtf8 s = true ∧ s.length < 2 ^ 32
   | .varchar s => validUtf8 s = true ∧ s.length < 2 ^ 32
   | .boolean _ => True
-  | .temporal _ s => validUtf8 s = true ∧ s.length < 2 ^ 32
+  | .temporal k s => validUtf8 s = true ∧ s.length < 2 ^ 32 ∧ (temporalCheck k s).toBool = true
 
 instance (v : BVal) : Decidable v.WF := by
   cases v <;> unfold BVal.WF <;> infer_instance
@@ -258,6 +270,15 @@ def writeBody : BVal → Bytes
 /-- `write_sql_value` -/
 def writeValue (v : BVal) : Bytes := v.tag.toByte :: writeBody v
 
+/-- a temporal value: the text is read, parsed (an unparsable text is an error, a panicking parser is
+    the `panic` outcome) and kept as text -/
+def readTemporal (k : TKind) : Reader BVal := do
+  let s ← readString
+  match temporalCheck k s with
+  | .ok _ => pure (.temporal k s)
+  | .error .err => fail .badTemporal
+  | .error .panic => fail .panic
+
 def readBody : Tag → Reader BVal
   | .null => pure .null
   | .smallint => do let n ← iN 2; pure (.smallint n)
@@ -271,10 +292,10 @@ def readBody : Tag → Reader BVal
   | .character => do let s ← readString; pure (.character s)
   | .varchar => do let s ← readString; pure (.varchar s)
   | .boolean => do let b ← rbool; pure (.boolean b)
-  | .date => do let s ← readString; pure (.temporal .date s)
-  | .time => do let s ← readString; pure (.temporal .time s)
-  | .timestamp => do let s ← readString; pure (.temporal .timestamp s)
-  | .interval => do let s ← readString; pure (.temporal .interval s)
+  | .date => readTemporal .date
+  | .time => readTemporal .time
+  | .timestamp => readTemporal .timestamp
+  | .interval => readTemporal .interval
 
 /-- `read_sql_value` (temporal strings are kept, not parsed) -/
 def readValue : Reader BVal := do
